@@ -42,15 +42,19 @@ func keyFromToks(toks []string) key.Key {
 	if sharedKeys != nil {
 		id := strings.Join(toks, " ")
 		if k, ok := sharedKeys[id]; ok {
+			trackKey(k.(key.Key))
 			return k.(key.Key)
 		}
 		v, _ := parseVal(toks, 0)
 		k := key.Key(v.(key.CoseMap))
 		sharedKeys[id] = k
+		trackKey(k)
 		return k
 	}
 	v, _ := parseVal(toks, 0)
-	return key.Key(v.(key.CoseMap))
+	k := key.Key(v.(key.CoseMap))
+	trackKey(k)
+	return k
 }
 
 func opsStr(o key.Ops) string {
@@ -121,6 +125,7 @@ func applyOpsAfter(k key.Key, after []string) {
 		v, _ := parseVal(after, 0)
 		k[iana.KeyParameterKeyOps] = v
 	}
+	resnapKeys()
 }
 
 func execImpl(op string, a []string) string {
